@@ -38,6 +38,7 @@ class Ctx:
         self.varsh = {}
         self.timeout = P_TIMEOUT_MS
         self.feas_timeout = 10000
+        self.deadline = None      # wall-clock budget of the current configuration
         self.reset_path()
         self.prefix = []
         self.cprefix = []
@@ -85,8 +86,16 @@ def vars_of(e, acc=None, seen=None):
 
 
 def check(cons, timeout=None, want_model=False):
+    to = timeout or C.timeout
+    if C.deadline is not None:
+        left = int((C.deadline - time.time()) * 1000)
+        if left <= 50:
+            # per-configuration wall budget exhausted: inconclusive, never success
+            C.stats['unknown'] = C.stats.get('unknown', 0) + 1
+            return ('unknown', None) if want_model else 'unknown'
+        to = min(to, left)
     s = z3.Solver()
-    s.set('timeout', timeout or C.timeout)
+    s.set('timeout', to)
     for c in cons:
         s.add(c)
     t0 = time.time()
